@@ -34,6 +34,24 @@ below; the ones inspected so far are equivalent mutants (ties that lead to the s
 used by the single-pass routines, edge entries of discrete profiles which carry no meaning, one extra loop iteration that
 touches nothing) or dead code.
 
+## Reading of the survivors (all inspected)
+
+* **Equivalent mutants** (the large majority): `<` ↔ `<=` / `>` ↔ `>=` in scan conditions where the tie leads to the same
+  arrays (a shared spike handled by the "next from train 1" branch followed by the "next from train 2" branch produces the same
+  zero-length piece / the same counts); `N > 1` → `N >= 1` in the Python kernels (for N = 1 the index `N-2` wraps to the same
+  element - the `.pyx` twins of these ARE killed, by the emulator's bounds check); loop conditions of the add routines relaxed
+  by one step (the last breakpoint is shared by both operands, so it can be consumed inside the loop or by the tail branch);
+  larger `np.empty` buffers; cursor variables that the single-pass routines never read; `range(i+0, …)` pair loops that add a
+  zero self-pair; `max(1, …)` ↔ `min(1, …)` in the Poisson pre-allocation; `np.unique` ↔ `np.sort` on two distinct edges.
+* **Dead code**: `spike_distance_rf_cython` (112 survivors, excluded from the table).
+* **Outside every statement**: the `almost_equal` helpers, the `ValueError` bounds validation of `PieceWiseConstFunc.integral`
+  (the repository's own tests pin it), edge entries of discrete profiles, comparisons at *exactly* the 1e-6 reconcile tolerance
+  or exactly `T_end` in the Poisson generator (probability zero), and `T_start = interval[1]` in `generate_poisson_spikes`
+  (the train becomes empty, which still is "sorted, inside the interval, carrying its edges"; the spike *count* is recorded as
+  evidence only because the statement fixes no distribution; the repository's tests fail on this mutant).
+* **One real blind spot, now closed**: `SpikeTrain.copy()` returning wrong edges survived C01/C13/C18/C19 and the 49 tests (every
+  measure reconciles the edges away).  C07 and C13 now require `copy()` to reproduce spikes *and* edges.
+
 | file | checks run | mutants | killed | survived | survived and baseline green | invalid |
 |---|---|---|---|---|---|---|
 """ + "\n".join(rows) + "\n\n## Survivors\n\n" + "\n".join(detail))
